@@ -14,6 +14,7 @@ import (
 
 	"github.com/TimothyStiles/poly/transform/codon"
 	"pgregory.net/rapid"
+	"verifharness/internal/ctab"
 	"verifharness/internal/ref"
 	"verifharness/internal/vk"
 )
@@ -536,7 +537,11 @@ var tableIDs = func() []int {
 	return ids
 }()
 
-func genSeq(t *rapid.T) vk.SeqSpec {
+// genSeq: a coding sequence; one in five is shaped like a complete gene of table id (start codon, whole codons, stop codon).
+func genSeq(t *rapid.T, id int) vk.SeqSpec {
+	if rapid.IntRange(0, 4).Draw(t, "gene_shaped") == 0 {
+		return vk.SeqSpec{Lit: ctab.DrawGene(t, "gene", id, 33000)}
+	}
 	alpha := rapid.SampledFrom([]string{"ACGT", "ACGT", "acgt", "ACGTacgt", "ACGTN", "ACGTURYKMSWacgtnx-*"}).Draw(t, "seq_alphabet")
 	return vk.DrawSeq(t, "seq", alpha, 0, 100000)
 }
@@ -554,7 +559,7 @@ func genOps(t *rapid.T) []Op {
 			op.ID = rapid.SampledFrom(pool).Draw(t, "id")
 		case "reweight":
 			op.H1 = rapid.IntRange(0, 5).Draw(t, "h")
-			op.Seq = genSeq(t)
+			op.Seq = genSeq(t, rapid.SampledFrom(pool).Draw(t, "gene_of"))
 			if rapid.IntRange(0, 2).Draw(t, "cover_all_codons") == 0 {
 				// make every synonym class non-empty so that compromise steps stay in their domain
 				op.Seq = vk.SeqSpec{Lit: everyCodonOnce + op.Seq.String()}
@@ -618,7 +623,8 @@ func checkCount(c CountCase) error {
 
 var subCount = vk.Register(&vk.Sub[CountCase]{Name: "count", Check: checkCount,
 	Gen: func(t *rapid.T) CountCase {
-		return CountCase{ID: rapid.SampledFrom(tableIDs).Draw(t, "id"), Seq: genSeq(t)}
+		id := rapid.SampledFrom(tableIDs).Draw(t, "id")
+		return CountCase{ID: id, Seq: genSeq(t, id)}
 	},
 	NonTrivial: func(c CountCase) bool { return len(c.Seq.String()) >= 6 },
 	Labels: func(c CountCase) []string {
